@@ -31,7 +31,8 @@ CMP_VALUES = [">=", "<=", "!=", "<", ">", "=", "*", None]
 CMP_LEAN = {">=": ".of .ge", "<=": ".of .le", "!=": ".of .ne", "<": ".of .lt", ">": ".of .gt", "=": ".of .eq",
             "*": ".star", None: ".pyNone"}
 LEAN_TYPE = {"Con": "Con V", "ConOpt": "Option (Con V)", "ConList": "List (Con V)", "PairList": "List (Con V × Con V)",
-             "Ver": "V", "VerOpt": "Option V", "Cmp": "CmpVal", "Bool": "Bool", "Pair": "Con V × Con V"}
+             "Ver": "V", "VerOpt": "Option V", "Cmp": "CmpVal", "Bool": "Bool", "Pair": "Con V × Con V",
+             "ConSet": "List (Con V)", "Nat": "Nat"}
 ERRORS = {"ValueError", "TypeError", "InvalidConstraintsError", "KeyError", "AttributeError", "IndexError"}
 
 
@@ -50,6 +51,8 @@ class Fn:
         self.calls = calls          # python call name -> (lean name, arg types, result type)
         self.tables = []            # lean text
         self.table_cache = {}       # (rows, raising) -> name
+        self.dicts = {}             # local dict literal -> lean name of its lookup table
+        self.uses_perm = False
         self.defs = []              # lean text of lifted loop bodies / continuations
         self.nloops = 0
         self.ntabs = 0
@@ -154,6 +157,10 @@ class Tr:
             return node.id, env[node.id], True
         if isinstance(node, ast.Attribute):
             vt, ty, pure = self.expr(node.value, env)
+            if ty == "Con" and not pure and node.attr in ("comparator", "version"):
+                v = fn.tmp()
+                f = "comparator" if node.attr == "comparator" else "PyRt.version"
+                return "(%s >>= fun %s => .ok (%s %s))" % (vt, v, f, v), ("Cmp" if node.attr == "comparator" else "VerOpt"), False
             if node.attr == "comparator":
                 if ty == "Con":
                     return "(comparator %s)" % vt, "Cmp", pure
@@ -165,7 +172,7 @@ class Tr:
                 if ty == "ConOpt" and pure:
                     return "(versionOpt %s)" % vt, "VerOpt", False
             raise Unsupported("attribute .%s of %s" % (node.attr, ty))
-        if isinstance(node, ast.Subscript):
+        if isinstance(node, ast.Subscript) and not (isinstance(node.value, ast.Name) and node.value.id in self.fn.dicts):
             vt, ty, pure = self.expr(node.value, env)
             if ty == "ConList" and pure and isinstance(node.slice, ast.Constant) and node.slice.value == 0:
                 return "(index %s 0)" % vt, "Con", False
@@ -203,13 +210,14 @@ class Tr:
                     if _is_literalish(other, env):
                         return self.table(node, cand, env)
             # len(x) <op> n
-            if isinstance(left, ast.Call) and isinstance(left.func, ast.Name) and left.func.id == "len" \
-                    and isinstance(right, ast.Constant) and isinstance(right.value, int):
-                xt, xty, xp = self.expr(left.args[0], env)
-                if xty not in ("ConList", "PairList") or not xp:
-                    raise Unsupported("len of %s" % xty)
-                sym = {ast.Eq: "==", ast.NotEq: "!=", ast.Lt: "<", ast.LtE: "<=", ast.Gt: ">", ast.GtE: ">="}[type(op)]
-                return "(decide (%s.length %s %d))" % (xt, {"==": "=", "!=": "≠"}.get(sym, sym), right.value), "Bool", True
+            if isinstance(left, ast.Call) and isinstance(left.func, ast.Name) and left.func.id == "len":
+                lt_, _lty, _lp = self.length(left.args[0], env)
+                sym = {ast.Eq: "=", ast.NotEq: "≠", ast.Lt: "<", ast.LtE: "≤", ast.Gt: ">", ast.GtE: "≥"}[type(op)]
+                if isinstance(right, ast.Constant) and isinstance(right.value, int):
+                    return "(decide (%s %s %d))" % (lt_, sym, right.value), "Bool", True
+                if isinstance(right, ast.Call) and isinstance(right.func, ast.Name) and right.func.id == "len":
+                    rt_, _rty, _rp = self.length(right.args[0], env)
+                    return "(decide (%s %s %s))" % (lt_, sym, rt_), "Bool", True
             lt_, lty, lp = self.expr(left, env)
             rt_, rty, rp = self.expr(right, env)
             if lty == "Ver" and rty == "VerOpt" and lp:
@@ -226,12 +234,41 @@ class Tr:
                     return "(%s >>= fun %s => %s o %s %s)" % (rt_, v, f, lt_, v), "Bool", False
             if lty == "Ver" and rty == "Con" and isinstance(op, ast.In):
                 # `version in constraint`: VersionConstraint.__contains__
-                name = fn.calls["__contains__"]
+                name = fn.calls["__contains__"][0]
                 if rp:
-                    return "(%s o %s %s)" % (name, rt_, lt_), "Bool", False
+                    return "(%s o perm %s %s)" % (name, rt_, lt_), "Bool", False
                 v = fn.tmp()
-                return "(%s >>= fun %s => %s o %s %s)" % (rt_, v, name, v, lt_), "Bool", False
+                return "(%s >>= fun %s => %s o perm %s %s)" % (rt_, v, name, v, lt_), "Bool", False
+            if lty == "Con" and rty == "ConSet" and lp and rp and isinstance(op, (ast.In, ast.NotIn)):
+                t = "(setMem o %s %s)" % (rt_, lt_)
+                return ("(!%s)" % t if isinstance(op, ast.NotIn) else t), "Bool", True
             raise Unsupported("comparison " + _src(node))
+        if isinstance(node, ast.Call) and isinstance(node.func, ast.Name) and node.func.id == "isinstance":
+            # the typed model has one class of constraints and one class of versions: the guards of this kind are
+            # C14's business (and the list/tuple guard of `validate` holds of every `List`)
+            return "true", "Bool", True
+        if isinstance(node, ast.Call) and isinstance(node.func, ast.Name) and node.func.id in ("all", "any") \
+                and len(node.args) == 1 and isinstance(node.args[0], ast.GeneratorExp) \
+                and isinstance(node.args[0].elt, ast.Call) and isinstance(node.args[0].elt.func, ast.Name) \
+                and node.args[0].elt.func.id == "isinstance":
+            return "true", "Bool", True
+        if isinstance(node, ast.List) and not node.elts:
+            return "([] : List (Con V))", "ConList", True
+        if isinstance(node, ast.BinOp) and isinstance(node.op, ast.Add):
+            lt_, lty, lp = self.expr(node.left, env)
+            rt_, rty, rp = self.expr(node.right, env)
+            if lty == rty == "ConList" and lp and rp:
+                return "(%s ++ %s)" % (lt_, rt_), "ConList", True
+            raise Unsupported("addition " + _src(node))
+        if isinstance(node, ast.Subscript) and isinstance(node.value, ast.Name) and node.value.id in self.fn.dicts:
+            # lookup in a local dict literal of comparator texts
+            kt, kty, kp = self.expr(node.slice, env)
+            if kty == "Cmp":
+                name = self.fn.dicts[node.value.id]
+                if kp:
+                    return "(%s %s)" % (name, kt), "Cmp", False
+                v = fn.tmp()
+                return "(%s >>= fun %s => %s %s)" % (kt, v, name, v), "Cmp", False
         if isinstance(node, ast.Call):
             return self.call(node, env)
         if isinstance(node, ast.ListComp) and len(node.generators) == 1 and not node.generators[0].is_async:
@@ -289,16 +326,69 @@ class Tr:
                     bt, _bty, bp = self.truth(g.elt, env2)
                     if ip and bp:
                         return "(%s.%s (fun %s => %s))" % (it, f.id, binder, bt), "Bool", True
+            if f.id == "len" and len(node.args) == 1:
+                return self.length(node.args[0], env)
+            if f.id == "set" and not node.args:
+                return "([] : List (Con V))", "ConSet", True
+            if f.id == "sorted" and len(node.args) == 1:
+                a = node.args[0]
+                if isinstance(a, ast.Call) and isinstance(a.func, ast.Name) and a.func.id == "set" and len(a.args) == 1:
+                    # sorted(set(xs)): the iteration order of the set is the parameter `perm`
+                    t, ty, p = self.expr(a.args[0], env)
+                    if ty == "ConList" and p:
+                        fn.uses_perm = True
+                        return "(sortedSet o perm %s)" % t, "ConList", False
+                t, ty, p = self.expr(a, env)
+                if ty == "ConList" and p:
+                    return "(sortCons o %s)" % t, "ConList", False
             if f.id in fn.calls:
-                lean, _argt, rty = fn.calls[f.id]
-                args = []
-                for a in node.args:
-                    t, _ty, p = self.expr(a, env)
-                    if not p:
-                        raise Unsupported("impure argument")
-                    args.append(t)
-                return "(%s o %s)" % (lean, " ".join(args)), rty, False
+                return self.call_known(f.id, node.args, env)
+        if isinstance(f, ast.Attribute) and f.attr == "__class__" and isinstance(f.value, ast.Name) and env.get(f.value.id) == "Con" \
+                and not node.args and {k.arg for k in node.keywords} == {"comparator", "version"}:
+            # VersionConstraint(comparator=c, version=v): __attrs_post_init__ refuses an unknown comparator text
+            kw = {k.arg: k.value for k in node.keywords}
+            ct, cty, cp = self.expr(kw["comparator"], env)
+            vt, vty, vp = self.expr(kw["version"], env)
+            if cty == "Cmp" and vty == "VerOpt" and cp and vp:
+                return "(mkCon %s %s)" % (ct, vt), "Con", False
+            raise Unsupported("constructor call " + _src(node))
+        if isinstance(f, ast.Attribute) and isinstance(f.value, ast.Name) and f.value.id in ("cls", "self") and f.attr in fn.calls:
+            # cls.helper(...) / self.helper()
+            args = list(node.args)
+            if f.value.id == "self" and env.get("self") == "Con":
+                args = [f.value] + args
+            return self.call_known(f.attr, args, env)
         raise Unsupported("call " + _src(node))
+
+    def call_known(self, pyname, arg_nodes, env):
+        fn = self.fn
+        lean, rty, perm = fn.calls[pyname]
+        args = []
+        for a in arg_nodes:
+            t, _ty, p = self.expr(a, env)
+            if not p:
+                raise Unsupported("impure argument")
+            args.append(t)
+        if perm:
+            fn.uses_perm = True
+        return "(%s o %s%s)" % (lean, "perm " if perm else "", " ".join(args)), rty, False
+
+    def length(self, node, env):
+        """len(x) as a natural number"""
+        if isinstance(node, ast.Call) and isinstance(node.func, ast.Name) and node.func.id == "set" and len(node.args) == 1 \
+                and isinstance(node.args[0], ast.GeneratorExp):
+            g = node.args[0]
+            if len(g.generators) == 1 and not g.generators[0].ifs and isinstance(g.elt, ast.Attribute) and g.elt.attr == "version" \
+                    and isinstance(g.elt.value, ast.Name) and isinstance(g.generators[0].target, ast.Name) \
+                    and g.elt.value.id == g.generators[0].target.id:
+                it, ity, ip = self.expr(g.generators[0].iter, env)
+                if ity == "ConList" and ip:
+                    # len(set(c.version for c in xs)): membership in a set is decided by == (and hash, C12)
+                    return "(countDistinct o [] %s)" % it, "Nat", True
+        t, ty, p = self.expr(node, env)
+        if ty in ("ConList", "PairList", "ConSet") and p:
+            return "%s.length" % t, "Nat", True
+        raise Unsupported("len of " + _src(node))
 
     # ------------------------------------------------------------------ statements
 
@@ -313,7 +403,23 @@ class Tr:
         if isinstance(s, ast.Pass):
             return self.block(rest, env, fall)
         if isinstance(s, ast.Return):
-            t, ty, pure = self.truth(s.value, env) if self.fn.ret == "Bool" else self.expr(s.value, env)
+            if self.fn.ret == "Bool":
+                t, ty, pure = self.truth(s.value, env)
+            else:
+                t, ty, pure = self.expr(s.value, env)
+                if self.fn.ret == "ConOpt":
+                    if ty == "None":
+                        t = "(none : Option (Con V))"
+                    elif ty == "Con":
+                        if pure:
+                            t = "(some %s)" % t
+                        else:
+                            v = fn.tmp()
+                            t = "(%s >>= fun %s => .ok (some %s))" % (t, v, v)
+                    else:
+                        raise Unsupported("return of %s" % ty)
+                elif ty != self.fn.ret:
+                    raise Unsupported("return of %s where %s is expected" % (ty, self.fn.ret))
             return self.ret(t, pure)
         if isinstance(s, ast.Raise):
             exc = s.exc
@@ -335,6 +441,17 @@ class Tr:
                 return "if %s then\n%s\nelse\n%s" % (ct, _ind(then), _ind(other))
             v = fn.tmp()
             return "%s >>= fun %s =>\nif %s then\n%s\nelse\n%s" % (ct, v, v, _ind(then), _ind(other))
+        if isinstance(s, ast.Assign) and isinstance(s.value, ast.Dict) and len(s.targets) == 1 and isinstance(s.targets[0], ast.Name) \
+                and all(isinstance(k, ast.Constant) and isinstance(v, ast.Constant) and k.value in CMP_LEAN and v.value in CMP_LEAN
+                        for k, v in zip(s.value.keys, s.value.values)):
+            # a local dict from comparator text to comparator text: a lookup table, KeyError outside its keys
+            d = {k.value: v.value for k, v in zip(s.value.keys, s.value.values)}
+            name = "%s_dict_%s" % (fn.lean_name, s.targets[0].id)
+            rows = "\n".join("  | %s => %s" % (CMP_LEAN[v], (".ok (CmpVal%s)" % CMP_LEAN[d[v]]) if v in d else ".error .KeyError")
+                             for v in CMP_VALUES)
+            fn.tables.append("/-- the dict `%s` -/\ndef %s : CmpVal → Except Err CmpVal\n%s\n" % (s.targets[0].id, name, rows))
+            fn.dicts[s.targets[0].id] = name
+            return self.block(rest, env, fall)
         if isinstance(s, ast.Assign):
             targets = s.targets
             if rest and isinstance(rest[-1], ast.Raise) and all(isinstance(x, (ast.Assign, ast.Raise)) for x in rest):
@@ -383,10 +500,57 @@ class Tr:
             raise Unsupported("assignment " + _src(s))
         if isinstance(s, ast.For):
             return self.for_loop(s, rest, env, fall)
+        if isinstance(s, ast.While):
+            return self.while_loop(s, rest, env, fall)
+        if isinstance(s, ast.Expr) and isinstance(s.value, ast.Call) and isinstance(s.value.func, ast.Attribute) \
+                and isinstance(s.value.func.value, ast.Name) and s.value.func.value.id in env:
+            # xs.append(x) / xs.pop() / seen.add(x): the variable takes the new value
+            name, meth, args = s.value.func.value.id, s.value.func.attr, s.value.args
+            ty = env[name]
+            if meth == "pop" and not args and ty == "ConList":
+                # (of a non-empty list: every `pop()` translated here is guarded by the truth value of the list)
+                return "let %s : %s := %s.dropLast\n" % (name, LEAN_TYPE[ty], name) + self.block(rest, env, fall)
+            if meth in ("append", "add") and len(args) == 1 and ty in ("ConList", "ConSet"):
+                t, aty, pure = self.expr(args[0], env)
+                if aty == "Con" and pure:
+                    new = ("(%s ++ [%s])" if meth == "append" else "(%s :: %s)"[::1]) % ((name, t) if meth == "append" else (t, name))
+                    return "let %s : %s := %s\n" % (name, LEAN_TYPE[ty], new) + self.block(rest, env, fall)
+            raise Unsupported("method call " + _src(s))
         raise Unsupported("statement " + _src(s).split("\n")[0])
 
     def ret(self, t, pure):
         return (".ok %s" % t) if pure else t
+
+    # ---- loops.  `self.rho` is the Lean type a term of the current context produces inside `Except Err`
+    # (the function's result type at top level, `Step σ ρ` inside a loop body); `self.depth` counts the loops around.
+
+    def _state(self, names, env):
+        st = []
+        for n in names:
+            if n in env and n not in st:
+                st.append(n)
+        return st
+
+    def _tuple(self, state):
+        return "(" + ", ".join(state) + ")" if len(state) > 1 else (state[0] if state else "()")
+
+    def _sig(self, captured, env):
+        fn = self.fn
+        perm = " (perm : List (Con V) → List (Con V))"
+        return perm + "".join(" (%s : %s)" % (n, LEAN_TYPE[env[n]]) for n in captured), " perm" + "".join(" " + n for n in captured)
+
+    def _in_body(self, sty, state, thunk):
+        """translate a loop body: returns wrap once more, falling off the end is `next`"""
+        saved = (self.ret, self.rho, self.depth)
+        outer_ret = self.ret
+        self.rho = "Step (%s) (%s)" % (sty, saved[1])
+        self.depth += 1
+        self.ret = lambda t, pure: ((".ok (.ret %s)" % _strip_ok(outer_ret(t, True))) if pure
+                                    else "(%s >>= fun r_ => .ok (.ret %s))" % (t, _strip_ok(outer_ret("r_", True))))
+        try:
+            return thunk(lambda e: ".ok (.next %s)" % self._tuple(state)), self.rho
+        finally:
+            self.ret, self.rho, self.depth = saved
 
     def for_loop(self, s, rest, env, fall):
         fn = self.fn
@@ -395,20 +559,14 @@ class Tr:
         it, ity, ip = self.expr(s.iter, env)
         if not ip:
             raise Unsupported("impure iterable")
-        assigned = [n for n in _assigned(s.body) if n in env]
-        # loop targets that exist before the loop are part of the state as well
         tnames = [e.id for e in (s.target.elts if isinstance(s.target, ast.Tuple) else [s.target])]
-        state = []
-        for n in tnames + assigned:
-            if n in env and n not in state:
-                state.append(n)
+        state = self._state(tnames + _assigned(s.body), env)
         fn.nloops += 1
         k = fn.nloops
         captured = [n for n in env if n not in state]
         sty = " × ".join(LEAN_TYPE[env[n]] for n in state) or "Unit"
         stpat = "(" + ", ".join(state) + ")" if len(state) > 1 else (state[0] if state else "_st")
         item_ty = {"ConList": "Con", "PairList": "Pair"}[ity]
-        # ---- body
         env_b = dict(env)
         pre = ""
         if isinstance(s.target, ast.Tuple):
@@ -420,27 +578,53 @@ class Tr:
             vty = self.var_types.get(s.target.id, "Con")
             env_b[s.target.id] = vty
             pre += "let %s : %s := %s\n" % (s.target.id, LEAN_TYPE[vty], "some item" if vty == "ConOpt" else "item")
-        saved_ret = self.ret
-        self.ret = lambda t, pure: (".ok (.ret %s)" % t) if pure else "(%s >>= fun r_ => .ok (.ret r_))" % t
-        try:
-            body = self.block(s.body, env_b,
-                              lambda e: ".ok (.next %s)" % ("(" + ", ".join(state) + ")" if len(state) > 1 else (state[0] if state else "()")))
-        finally:
-            self.ret = saved_ret
-        params = "".join(" (%s : %s)" % (n, LEAN_TYPE[env[n]]) for n in captured)
-        args = "".join(" " + n for n in captured)
+        body, rho_b = self._in_body(sty, state, lambda fall_b: self.block(s.body, env_b, fall_b))
+        params, args = self._sig(captured, env)
         bname = "%s_for%d_body" % (fn.lean_name, k)
         aname = "%s_for%d_after" % (fn.lean_name, k)
         unpack = ("let %s := st\n" % stpat) if state else ""
-        fn.defs.append("/-- body of `for %s in %s:` -/\ndef %s {V} (o : VOps V)%s (item : %s) (st : %s) : Except Err (Step (%s) %s) :=\n%s\n"
-                       % (_src(s.target), _src(s.iter), bname, params, LEAN_TYPE[item_ty], sty, sty, LEAN_TYPE[fn.ret],
-                          _ind(unpack + pre + body)))
-        # ---- after the loop (the loop targets keep their last values: they are in the state if they existed before)
+        fn.defs.append("/-- body of `for %s in %s:` -/\ndef %s {V} (o : VOps V)%s (item : %s) (st : %s) : Except Err (%s) :=\n%s\n"
+                       % (_src(s.target), _src(s.iter), bname, params, LEAN_TYPE[item_ty], sty, rho_b, _ind(unpack + pre + body)))
         after = self.block(rest, env, fall)
-        fn.defs.append("/-- the statements after `for %s in %s:` -/\ndef %s {V} (o : VOps V)%s (st : %s) : Except Err %s :=\n%s\n"
-                       % (_src(s.target), _src(s.iter), aname, params, sty, LEAN_TYPE[fn.ret], _ind(unpack + after)))
-        init = "(" + ", ".join(state) + ")" if len(state) > 1 else (state[0] if state else "()")
-        return "pyFor %s %s (%s o%s) (%s o%s)" % (it, init, bname, args, aname, args)
+        fn.defs.append("/-- the statements after `for %s in %s:` -/\ndef %s {V} (o : VOps V)%s (st : %s) : Except Err (%s) :=\n%s\n"
+                       % (_src(s.target), _src(s.iter), aname, params, sty, self.rho, _ind(unpack + after)))
+        return "pyFor %s %s (%s o%s) (%s o%s)" % (it, self._tuple(state), bname, args, aname, args)
+
+    def while_loop(self, s, rest, env, fall):
+        fn = self.fn
+        if s.orelse:
+            raise Unsupported("while-else")
+        state = self._state(_assigned(s.body), env)
+        lists = [n for n in state if env[n] in ("ConList", "ConSet", "PairList")]
+        if not lists:
+            raise Unsupported("while loop without a list to bound it")
+        fn.nloops += 1
+        k = fn.nloops
+        captured = [n for n in env if n not in state]
+        sty = " × ".join(LEAN_TYPE[env[n]] for n in state) or "Unit"
+        stpat = "(" + ", ".join(state) + ")" if len(state) > 1 else (state[0] if state else "_st")
+        params, args = self._sig(captured, env)
+        unpack = ("let %s := st\n" % stpat) if state else ""
+        ct, _cty, cpure = self.truth(s.test, env)
+        cname = "%s_while%d_cond" % (fn.lean_name, k)
+        bname = "%s_while%d_body" % (fn.lean_name, k)
+        aname = "%s_while%d_after" % (fn.lean_name, k)
+        fn.defs.append("/-- condition of `while %s:` -/\ndef %s {V} (o : VOps V)%s (st : %s) : Except Err Bool :=\n%s\n"
+                       % (_src(s.test), cname, params, sty, _ind(unpack + (".ok %s" % ct if cpure else ct))))
+        body, rho_b = self._in_body(sty, state, lambda fall_b: self.block(s.body, env, fall_b))
+        fn.defs.append("/-- body of `while %s:` -/\ndef %s {V} (o : VOps V)%s (st : %s) : Except Err (%s) :=\n%s\n"
+                       % (_src(s.test), bname, params, sty, rho_b, _ind(unpack + body)))
+        after = self.block(rest, env, fall)
+        fn.defs.append("/-- the statements after `while %s:` -/\ndef %s {V} (o : VOps V)%s (st : %s) : Except Err (%s) :=\n%s\n"
+                       % (_src(s.test), aname, params, sty, self.rho, _ind(unpack + after)))
+        # every round of the loops translated here shortens one of these lists: their total length bounds the rounds
+        fuel = " + ".join("%s.length" % n for n in lists) + " + 1"
+        return "pyWhile (%s) %s (%s o%s) (%s o%s) (%s o%s)" % (fuel, self._tuple(state), cname, args, bname, args, aname, args)
+
+
+def _strip_ok(t):
+    assert t.startswith(".ok "), t
+    return t[4:] if not (" " in t[4:] and not t[4:].startswith("(")) else "(" + t[4:] + ")"
 
 
 def _ind(text, n=2):
@@ -488,6 +672,10 @@ def _assigned(stmts):
                 for e in ast.walk(n.target):
                     if isinstance(e, ast.Name) and e.id not in out:
                         out.append(e.id)
+            if isinstance(n, ast.Expr) and isinstance(n.value, ast.Call) and isinstance(n.value.func, ast.Attribute) \
+                    and n.value.func.attr in ("append", "pop", "add") and isinstance(n.value.func.value, ast.Name):
+                if n.value.func.value.id not in out:
+                    out.append(n.value.func.value.id)
     return out
 
 
@@ -547,6 +735,10 @@ def _var_types(fdef, params):
             return "NoneT"
         if isinstance(v, ast.Attribute) and v.attr == "comparator":
             return "Cmp"
+        if isinstance(v, ast.Call) and isinstance(v.func, ast.Name) and v.func.id == "set" and not v.args:
+            return "ConSet"
+        if isinstance(v, (ast.List, ast.ListComp)):
+            return "ConList"
         if isinstance(v, ast.Name):
             return env.get(v.id)
         return None
@@ -576,11 +768,13 @@ def translate_function(fdef, lean_name, params, ret, calls):
     fn = Fn(fdef.name, lean_name, params, ret, calls)
     tr = Tr(fn)
     tr.var_types = _var_types(fdef, params)
+    tr.rho = LEAN_TYPE[ret]
+    tr.depth = 0
     env = dict(params)
     body = tr.block(fdef.body, env, lambda e: ".error .TypeError  -- falls off the end (returns None)")
-    sig = "".join(" (%s : %s)" % (n, LEAN_TYPE[t]) for n, t in params)
+    sig = " (perm : List (Con V) → List (Con V))" + "".join(" (%s : %s)" % (n, LEAN_TYPE[t]) for n, t in params)
     text = "".join(t + "\n" for t in fn.tables) + "".join(d + "\n" for d in fn.defs)
-    text += "/-- `%s` of univers/version_constraint.py, translated -/\ndef %s {V} (o : VOps V)%s : Except Err %s :=\n%s\n" % (
+    text += "/-- `%s` of univers/version_constraint.py, translated -/\ndef %s {V} (o : VOps V)%s : Except Err (%s) :=\n%s\n" % (
         fdef.name, lean_name, sig, LEAN_TYPE[ret], _ind(body))
     return text
 
@@ -601,13 +795,29 @@ open Univers Univers.PyRt
 """
 
 CON_CONTAINS = ("/-- `VersionConstraint.__contains__` (the class guard is C14's business): `comp_operator(version, self.version)` -/\n"
-                "def con_contains {V} (o : VOps V) (self : Con V) (version : V) : Except Err Bool := .ok (self.sat o version)\n\n")
+                "def con_contains {V} (o : VOps V) (perm : List (Con V) → List (Con V)) (self : Con V) (version : V) : Except Err Bool := .ok (self.sat o version)\n\n")
 
-# python function -> (class or None, generated file, lean name, parameters, result type)
+# python function -> (class or None, generated file, lean name, parameters, result type, imports)
 JOBS = [
-    ("contains_version", None, "PyContainsVersion", "contains_version", [("version", "Ver"), ("constraints", "ConList")], "Bool"),
-    ("validate_comparators", None, "PyValidateComparators", "validate_comparators", [("constraints", "ConList")], "Bool"),
+    ("contains_version", None, "PyContainsVersion", "contains_version", [("version", "Ver"), ("constraints", "ConList")], "Bool", []),
+    ("validate_comparators", None, "PyValidateComparators", "validate_comparators", [("constraints", "ConList")], "Bool", []),
+    ("deduplicate", None, "PyDeduplicate", "deduplicate", [("constraints", "ConList")], "ConList", []),
+    ("simplify_constraints", None, "PySimplifyConstraints", "simplify_constraints", [("constraints", "ConList")], "ConList", []),
+    ("is_star", "VersionConstraint", "PyConIsStar", "con_is_star", [("self", "Con")], "Bool", []),
+    ("invert", "VersionConstraint", "PyConInvert", "con_invert", [("self", "Con")], "ConOpt", ["PyConIsStar"]),
+    ("validate", "VersionConstraint", "PyConValidate", "con_validate", [("constraints", "ConList")], "Bool", ["PyValidateComparators"]),
+    ("simplify", "VersionConstraint", "PyConSimplify", "con_simplify", [("constraints", "ConList")], "ConList",
+     ["PyDeduplicate", "PySimplifyConstraints"]),
 ]
+
+# callee python name -> (lean name, result type, takes perm)
+CALLS = {
+    "__contains__": ("con_contains", "Bool", True),
+    "validate_comparators": ("validate_comparators", "Bool", True),
+    "deduplicate": ("deduplicate", "ConList", True),
+    "simplify_constraints": ("simplify_constraints", "ConList", True),
+    "is_star": ("con_is_star", "Bool", True),
+}
 
 
 def generate(src_path):
@@ -627,19 +837,18 @@ def generate(src_path):
                 MODULE_NS[k] = v
     except Exception:  # noqa: BLE001
         pass
-    calls = {"__contains__": "con_contains"}
-    for pyname, cls, fname, lean, params, ret in JOBS:
-        out = [HEADER]
+    for pyname, cls, fname, lean, params, ret, imports in JOBS:
+        out = [HEADER.replace("import Univers.Vers.PyRt\n", "import Univers.Vers.PyRt\n" + "".join("import Univers.Gen.%s\n" % i for i in imports))]
         if pyname == "contains_version":
             # the isinstance guard of VersionConstraint.__contains__ is vacuous in the typed model (one version class);
             # `self.comp_operator(version, self.version)` is COMPARATORS[self.comparator] applied, i.e. `Con.sat`
             out.append(CON_CONTAINS)
         try:
-            out.append(translate_function(_find(tree, pyname, cls), lean, params, ret, calls))
-            status[pyname] = "translated"
+            out.append(translate_function(_find(tree, pyname, cls), lean, params, ret, CALLS))
+            status[(cls + "." if cls else "") + pyname] = "translated"
         except (Unsupported, StopIteration) as e:
             out.append("-- `%s` could not be translated: %s\n\n" % (pyname, e or "not found"))
-            status[pyname] = "unsupported: %s" % (e or "function not found")
+            status[(cls + "." if cls else "") + pyname] = "unsupported: %s" % (e or "function not found")
         out.append("end Univers.Gen.LayerB\n")
         files[fname + ".lean"] = "".join(out)
     return files, status
